@@ -207,9 +207,13 @@ type unit struct {
 	end   int64
 }
 
-// fetchUnits encodes the part of the log that covers offsets >= off.
-func fetchUnits(p *Partition, off int64, maxMagic int8) []unit {
-	var out []unit
+// fetchUnits calls yield with the encoded units of the log that cover offsets
+// >= off, in order, until yield returns false.  Encoded batches are cached
+// (stored batches are immutable).
+func fetchUnits(p *Partition, off int64, maxMagic int8, yield func(u unit) bool) {
+	if p.encCache == nil {
+		p.encCache = map[encKey][]byte{}
+	}
 	for i := range p.Log {
 		b := p.Log[i]
 		if batchEnd(&b) <= off {
@@ -230,18 +234,27 @@ func fetchUnits(p *Partition, off int64, maxMagic int8) []unit {
 				if err != nil {
 					panic(err)
 				}
-				out = append(out, unit{enc, rec.Offset + 1})
+				if !yield(unit{enc, rec.Offset + 1}) {
+					return
+				}
 			}
 			continue
 		}
-		rs := refcodec.RecordSet{Batches: []refcodec.Batch{b}}
-		enc, err := rs.Encode()
-		if err != nil {
-			panic(err)
+		key := encKey{i, maxMagic}
+		enc := p.encCache[key]
+		if enc == nil {
+			rs := refcodec.RecordSet{Batches: []refcodec.Batch{b}}
+			var err error
+			enc, err = rs.Encode()
+			if err != nil {
+				panic(err)
+			}
+			p.encCache[key] = enc
 		}
-		out = append(out, unit{enc, batchEnd(&b)})
+		if !yield(unit{enc, batchEnd(&b)}) {
+			return
+		}
 	}
-	return out
 }
 
 // downConvert turns a format-2 batch into format-1 messages, as brokers do for
@@ -326,7 +339,7 @@ func (c *Cluster) fetchOnce(b *Broker, r *Request, act *Action, totalMax int, ma
 			}
 			resp["HighWatermark"], resp["LastStableOffset"], resp["LogStartOffset"] = p.End, p.End, p.LogStart
 			var raw []byte
-			for _, u := range fetchUnits(p, off, maxMagic) {
+			fetchUnits(p, off, maxMagic, func(u unit) bool {
 				budget := pmax - len(raw)
 				if tb := totalMax - total - len(raw); tb < budget {
 					budget = tb
@@ -334,18 +347,19 @@ func (c *Cluster) fetchOnce(b *Broker, r *Request, act *Action, totalMax int, ma
 				if len(raw) == 0 && first {
 					// KIP-74: the first batch of the first non-empty partition is returned whole
 					raw = append(raw, u.bytes...)
-					continue
+					return true
 				}
 				if budget <= 0 {
-					break
+					return false
 				}
 				if len(u.bytes) > budget {
 					// the slice of the log ends inside this batch: partial trailing bytes
 					raw = append(raw, u.bytes[:budget]...)
-					break
+					return false
 				}
 				raw = append(raw, u.bytes...)
-			}
+				return true
+			})
 			if len(raw) > 0 {
 				first = false
 			}
